@@ -36,7 +36,7 @@ META = {
 }
 
 MANIFEST = {
-    'level_text': 'Bounded scenarios executed symbolically by the verifier on the real code (the whole new / add_* / write_fp path runs inside pyvc, byte-identical to CPython): for each of 49 refused calls (bad names, duplicates, missing parents, wrong image flavour, El Torito / isohybrid parameter errors, multi-namespace edits) the image must be exactly as before - next write and later edit+write equal those of a reference image. 14 call shapes are recorded known findings (multi-namespace edits applied namespace by namespace: K12), one defect repaired (add_isohybrid).',
+    'level_text': 'Bounded scenarios executed symbolically by the verifier on the real code (the whole new / add_* / write_fp path runs inside pyvc, byte-identical to CPython): for each of 59 refused calls, and for a refusal chosen from the state of each of 8 random edit histories (thorough: 105), (bad names, duplicates, missing parents, wrong image flavour, El Torito / isohybrid parameter errors, multi-namespace edits) the image must be exactly as before - next write and later edit+write equal those of a reference image. 14 call shapes are recorded known findings (multi-namespace edits applied namespace by namespace: K12), one defect repaired (add_isohybrid).',
     'level_note': 'NOT an all-call-sites proof: bounded scenario table, symbolic only in length / illegal character. Trusted: pyvc executing ~10k lines of real code per scenario (cross-checked: mastering output byte-identical with CPython), pinned clock/random.',
     'design_ref': 'DESIGN.md section 4 C14',
 }
